@@ -46,6 +46,15 @@ CLAIMS = {
  'C19': ('Full statement proved on the container model: C19_push_inv/C19_push (exactly n-1 pushes over ALL op sequences), C19_push_small, C19_reset (translated reset body), C19_norm, C19_size (incl. = number of leaves for any WellFormed dendrogram), C19_eq_step/C19_eq (iff characterisation over any linearly ordered additive group, eps >= 0). Correspondence: random op scripts on the real Dendrogram/Step API vs the Lean driver (500k lines quick), statement-level oracle incl. eps in {pred d, d, succ d} around the computed difference.',
          "Lean kernel + standard axioms + Mathlib ordered-group lemmas; float reading of 'differ by at most eps' is on the rounded difference as the code computes it; that clustering outputs are WellFormed is C01.",
          'Lean 4 theorems on the container model + op-sequence correspondence + statement-level oracle'),
+ 'C09': ("Full statement proved for the model via ONE naturality theorem (runWith_natural_safe: every model function commutes with a homomorphism of the number operations; all five entry points, seven methods, both build modes, any prior states, panics correspond): C09 - under ScaleLaws s (order preserved; s commutes with + - and with x / by any constant; sqrt(s(s x)) = s(sqrt x): what x2^k satisfies in IEEE arithmetic while nothing over/underflows) labels, sizes and access counts are identical and every height is mapped by s; sentinel hypotheses are the weakest that work (SentinelSafe for generic's max_value, s(inf)=inf for mst) and C09_rescaled_sentinels needs none; C09_formulas, C09_no_constants. Oracle: every case re-run at 2^k, bit compare, on the real crate.",
+         'Lean kernel + standard axioms; translator for method.rs (a literal other than 0.5/0.25 becomes an undefined Gen.literal and breaks the build); that IEEE floats satisfy ScaleLaws/SentinelSafe within the safe range is trusted and exercised by the bit-exact oracle.',
+         'Lean 4 naturality theorem over the executable model + bit-exact scaling oracle + correspondence'),
+ 'C10': ('Full statement proved for the model from the same naturality theorem: C10 - for single/complete and ANY order homomorphism g (lt/beq/isNaN preserved) labels and sizes are identical and heights are g(height), on every accepting entry point, under ties, both build modes (C10_formulas: Gen.single/Gen.complete only select). Oracle: affine/cubic/exp/log/rank maps with bit compare; exhaustive weak orderings of the 6 entries for n=4 (1/3 in quick, all 4683 in thorough).',
+         'Lean kernel + standard axioms; sentinel hypotheses as in C09; floats: IEEE < and == are preserved by strictly increasing maps on non-NaN values (trusted).',
+         'Lean 4 naturality theorem over the executable model + monotone-map oracle (exhaustive n=4) + correspondence'),
+ 'C20': ("Cost model of every Vec in LinkageState/Dendrogram with std's growth policy (validated exactly against a counting global allocator on every run): C20_peak and C20_total (<= 512n+4096 for all n, capacities, algorithms, widths), C20_no_matrix_sized_request, C20_warm (warm _with: 0 or 1 allocation <= 32(n-1) bytes, capacities unchanged), C20_capacity_monotone, C20_call_makes_warm, C20_warm_after_use, C20_value_independent, C20_in_place (all entry points: returned matrix has the input's size; mst: identical data array), C20_buffers_match_reset (buffer table tied to the translated reset bodies: adding a buffer breaks the build). NOT verified: std's growth policy and sort scratch size (toolchain facts, re-measured every run), the allocator; chain <= n entries under float rounding (exact-count comparison would expose a chain reallocation).",
+         'Lean kernel + standard axioms; counting #[global_allocator] in the harness (thread-local counters); rustc 1.95 Vec growth policy and stable-sort scratch policy are modelled, compared exactly on every case.',
+         'Lean 4 theorems on an allocation cost model + exact comparison with a counting allocator + direct bound oracle'),
 }
 NOT_YET = "check not built yet in this round (build in progress)"
 
